@@ -1095,12 +1095,25 @@ func c06RandRigCase(r *rand.Rand, cores int, withFlush bool) c06RigCase {
 		x := int32(r.Intn(8) * 64)
 		y := x + 64*int32(1+r.Intn(6))
 		j := func(n int) int { return r.Intn(n) }
+		if r.Intn(2) == 0 {
+			// the writer shares the line too (upgrade); the sharer whose snoop is busy holds the other line Modified
+			d1 := 20 + j(20)
+			c.Ops = append(c.Ops, c06Op{Core: 2, Kind: "w", Addr: y + int32(4*j(16)), Width: 4, Delay: 0, Val: int32(r.Uint32())})
+			c.Ops = append(c.Ops, c06Op{Core: 2, Kind: "r", Addr: x + int32(4*j(16)), Width: 4, Delay: 10 + j(4)})
+			c.Ops = append(c.Ops, c06Op{Core: 0, Kind: "r", Addr: x + int32(4*j(16)), Width: 4, Delay: 328 + j(6)})
+			c.Ops = append(c.Ops, c06Op{Core: 1, Kind: "r", Addr: x + int32(4*j(16)), Width: 4, Delay: 328 + j(6)})
+			c.Ops = append(c.Ops, c06Op{Core: 1, Kind: "r", Addr: y + int32(4*j(16)), Width: 4, Delay: d1})
+			c.Ops = append(c.Ops, c06Op{Core: 0, Kind: "w", Addr: x + int32(4*j(16)), Width: 4, Delay: d1 + j(40), Val: int32(r.Uint32())})
+			c.Ops = append(c.Ops, c06Op{Core: 2, Kind: "r", Addr: x, Width: 4, Delay: 700 + j(300)})
+			c.Ops = append(c.Ops, c06Op{Core: 1, Kind: "r", Addr: x, Width: 4, Delay: 400 + j(300)})
+			return c
+		}
 		c.Ops = append(c.Ops, c06Op{Core: 1, Kind: "r", Addr: x + int32(4*j(16)), Width: 4, Delay: j(3)})
 		c.Ops = append(c.Ops, c06Op{Core: 2, Kind: "r", Addr: x + int32(4*j(16)), Width: 4, Delay: j(3)})
 		c.Ops = append(c.Ops, c06Op{Core: 2, Kind: "w", Addr: y + int32(4*j(16)), Width: 4, Delay: 320 + j(20), Val: int32(r.Uint32())})
 		t := 700 + j(40)
 		c.Ops = append(c.Ops, c06Op{Core: 1, Kind: "r", Addr: y + int32(4*j(16)), Width: 4, Delay: t})
-		c.Ops = append(c.Ops, c06Op{Core: 0, Kind: "w", Addr: x + int32(4*j(16)), Width: 4, Delay: t + 310 + []int{0, 1, 2, 3, 5, 10, 50, 150, 300, 305, 308, 312}[j(12)], Val: int32(r.Uint32())})
+		c.Ops = append(c.Ops, c06Op{Core: 0, Kind: "w", Addr: x + int32(4*j(16)), Width: 4, Delay: t + 310 + []int{0, 1, 2, 3, 5, 10, 15, 20, 50, 150, 300, 305}[j(12)], Val: int32(r.Uint32())})
 		c.Ops = append(c.Ops, c06Op{Core: 1, Kind: "r", Addr: x, Width: 4, Delay: 400 + j(300)})
 		c.Ops = append(c.Ops, c06Op{Core: 2, Kind: "r", Addr: x, Width: 4, Delay: 400 + j(300)})
 		return c
